@@ -488,6 +488,35 @@ Definition dec_iff_ok (k : codec) (l : list fopt) (v : N) (txt : str) : bool :=
   | _ => true
   end.
 
+(** audit follow-up: the round trip is evaluated for EVERY separator.  [in_range]
+    is the value domain alone; [sep_good] is the class of separators for which
+    the round trip is proved (first byte not a hex digit; for FormatIA also no
+    '-').  Outside it pkg/addr really returns other values (known finding
+    separator-hex-or-dash): e.g. separator "0", AS 10203 parses back as 1:2:3. *)
+Definition in_range (k : codec) (v : N) : bool :=
+  match k with
+  | KIsd | KFIsd => v <=? max_isd
+  | KAs | KFAs => v <=? max_as
+  | KIa | KFIa => v <? 2 ^ 64
+  | KSvc => svc_known v
+  end.
+
+Definition sep_head_ok (sep : str) : bool :=
+  match sep with h :: _ => negb (is_hex h) | [] => false end.
+
+Definition sep_good (k : codec) (l : list fopt) : bool :=
+  let sep := o_sep (apply_opts l) in
+  match k with
+  | KFAs => sep_head_ok sep
+  | KFIa => sep_head_ok sep && negb (existsb (N.eqb 45) sep)
+  | _ => true
+  end.
+
+Definition fmt_oracle (k : codec) (l : list fopt) (v : N) (txt : str) (back : option N) : bool :=
+  if in_range k v
+  then option_eqb N.eqb back (Some v) && (if sep_good k l then dec_iff_ok k l v txt else true)
+  else true.
+
 Definition host_part (s : str) : str :=
   match cut_comma s with Some (_, b) => b | None => [] end.
 
@@ -496,7 +525,7 @@ Definition check (c : case) : N :=
   | CFmt k0 l v txt back =>
     let k := codec_of k0 in
     Check.verdict (str_eqb (fmt_k k l v) txt && opt_N_eqb (parse_k k l txt) back)
-                  (if in_domain k l v then opt_N_eqb back (Some v) && dec_iff_ok k l v txt else true)
+                  (fmt_oracle k l v txt back)
   | CParse k0 l s impl =>
     let k := codec_of k0 in
     Check.verdict (opt_N_eqb (parse_k k l s) impl)
